@@ -16,6 +16,14 @@ type c08Seen struct {
 	hName, subTopic, pubTopic, pubName, subName string
 }
 
+// c08NamedSub: a subscriber that names itself per instance (fmt.Stringer), as Pub/Subs with a configured name do
+type c08NamedSub struct {
+	*directSubscriber
+	name string
+}
+
+func (s c08NamedSub) String() string { return s.name }
+
 type c08PubA struct{ scriptedPublisher }
 type c08PubB struct{ scriptedPublisher }
 
@@ -43,6 +51,7 @@ func HarnessC08Route() {
 	var seen []c08Seen
 	var outs [2][]*Message
 	var m0, m1 *Message
+	var wantSubName [2]string
 	redeliveredTo0 := false
 	mk := func(i int, name string) (*handler, *directSubscriber, Publisher, string, string) {
 		p := "h" + strconv.Itoa(i) + "."
@@ -55,6 +64,12 @@ func HarnessC08Route() {
 		nOut := 2 * vrt.Int(p+"nout", 0, 1)
 		echo := i == 0 // handler 0 returns the consumed message object itself as first output
 		sub := &directSubscriber{}
+		var asSub Subscriber = sub
+		wantSubName[i] = "message.directSubscriber"
+		if vrt.Bool(p + "sub.names.itself") {
+			wantSubName[i] = "sub-" + strconv.Itoa(i)
+			asSub = c08NamedSub{sub, wantSubName[i]}
+		}
 		fn := func(m *Message) ([]*Message, error) {
 			ctx := m.Context()
 			seen = append(seen, c08Seen{handler: name, msg: m, hName: HandlerNameFromCtx(ctx), subTopic: SubscribeTopicFromCtx(ctx),
@@ -70,7 +85,7 @@ func HarnessC08Route() {
 			outs[i] = out
 			return out, nil
 		}
-		r.AddHandler(name, subTopic, sub, pubTopic, pub, fn)
+		r.AddHandler(name, subTopic, asSub, pubTopic, pub, fn)
 		return r.handlers[name], sub, pub, subTopic, pubTopic
 	}
 	name0 := vrt.PickStr("h0.name", "H0", "") // the empty handler name is legal
@@ -136,7 +151,11 @@ func HarnessC08Route() {
 		if p == Publisher(pubB) {
 			wantPub = "message.c08PubB"
 		}
-		vrt.Assert(s.pubName == wantPub && s.subName == "message.directSubscriber", "the context reports the Pub/Sub type names")
+		wantSub := wantSubName[0]
+		if s.msg == m1 {
+			wantSub = wantSubName[1]
+		}
+		vrt.Assert(s.pubName == wantPub && s.subName == wantSub, "the context reports the Pub/Sub type names (or the names the Pub/Subs give themselves)")
 	}
 	// publisher calls
 	total := 0
